@@ -184,3 +184,20 @@ def check(ck):
         okr = not (set(rf.nodes_all(rets)) & live) and "call:get_calling_frame" in rf.deps(A.call_recv(apps[0]))
     ck.ob(R5, rf.key(None, "appends-handle"), okr, "the returned handle is appended to the calling frame's resources" if okr else
           "a resource handle can be returned without being recorded in the calling frame's memento", rf.where())
+    # ---- R6: the batch entry point submits one call per requested element, in order, and the
+    # recorded invocations are decoded one by one
+    ck.rule("C10.R6", "call_batch dispatches exactly the list of references it built (one per element, duplicates included); "
+                      "stored invocation lists are decoded element by element from their own state", 3)
+    cb = FA(ck, "base.MementoFunctionBase.call_batch")
+    fns = [s_ for s_ in cb.stmts(ast.Assign) if isinstance(s_.value, ast.ListComp) and A.norm(s_.value.generators[0].iter) == "kwargs_list"]
+    run = cb.calls("memento_run_batch")
+    ok = len(fns) == 1 and len(run) == 1 and isinstance(fns[0].targets[0], ast.Name)
+    if ok:
+        arg = A.kwarg(run[0], "fn_reference_with_args")
+        nm = fns[0].targets[0].id
+        ok = isinstance(arg, ast.Name) and arg.id == nm and all(len(cb.df.reaching(i, nm)) == 1 for i in cb.nodes(run[0])) and not fns[0].value.generators[0].ifs
+    ck.ob("C10.R6", cb.key(None, "dispatches-all-elements"), ok, "every requested element is submitted, duplicates included" if ok else
+          "call_batch does not submit exactly the reference list it built from kwargs_list (deduplicated / filtered / re-ordered): a body that "
+          "batches [a, b, a] gets two invocations recorded instead of three", cb.where())
+    from .c11 import check_decoders_pure
+    check_decoders_pure(ck, "C10.R6")
